@@ -41,7 +41,9 @@ def drop_worktree(d):
     shutil.rmtree(d, ignore_errors=True)
 
 
-def do_import(pid, src, offset=0):
+def do_import(pid, src, offset=None):
+    if offset is None:
+        offset = max([int(p.rsplit('-', 1)[1]) for p in glob.glob(os.path.join(V, 'seeded', pid + '-*'))] or [0])
     wt = worktree()
     kept = []
     try:
@@ -185,7 +187,7 @@ def main():
     a1 = sub.add_parser('import')
     a1.add_argument('pid')
     a1.add_argument('--src')
-    a1.add_argument('--offset', type=int, default=0)
+    a1.add_argument('--offset', type=int, default=None, help='default: the highest number kept for this property so far')
     a4 = sub.add_parser('verify')
     a4.add_argument('names', nargs='*')
     a3 = sub.add_parser('rebase')
